@@ -34,18 +34,18 @@ def run(ctx):
         ctx.notes.append("feeder reported panics/hang itself; outcome log not re-validated")
     else:
         validate_trace(ctx, d, "TokensTrace", "TokensTrace.cfg", "c01_trace.ndjson", "outcome log (enumerated families)")
-    ctx.evaluations += s["calls"]
-    ctx.distinct += s["distinct_inputs"]
-    ctx.traces += s["distinct_inputs"]
+    ctx.evaluations += s.get("calls", 0)
+    ctx.distinct += s.get("distinct_inputs", s.get("inputs", 0))
+    ctx.traces += s.get("distinct_inputs", s.get("inputs", 0))
     ctx.exhaustive = True
 
     ctx.vh(["c01", "fuzz", ctx.scratch / "fuzz.res", d / "c01_trace.ndjson", 100000 if q else 1500000], timeout=3000)
     s2 = ctx.collect(ctx.scratch / "fuzz.res")
     if not s2.get("hang") and not s2.get("mismatches"):
         validate_trace(ctx, d, "TokensTrace", "TokensTrace.cfg", "c01_trace.ndjson", "outcome log (fuzz)")
-    ctx.evaluations += s2["calls"]
-    ctx.distinct += s2["distinct_inputs"]
-    ctx.extra["fuzz_inputs"] = s2["distinct_inputs"]
+    ctx.evaluations += s2.get("calls", 0)
+    ctx.distinct += s2.get("distinct_inputs", s2.get("inputs", 0))
+    ctx.extra["fuzz_inputs"] = s2.get("distinct_inputs", s2.get("inputs", 0))
 
 
 def replay(ctx, path):
